@@ -103,3 +103,331 @@ Definition sh_commands (s : str) : option (list simple) :=
   | None => None
   end.
 End Sh.
+
+(* ====================================================================================================
+   Second layer (environment channel): assignment words, the export builtin, tilde expansion and the
+   environment carried along an && list, as dash 0.5.12 does it.  Everything above is unchanged.
+
+   Words now also record the quote marks (dash: CTLQUOTEMARK), because dash gives up a tilde prefix as soon
+   as it meets a quote mark or a quoted character, and an empty pair of quotes is otherwise invisible.
+   The lexer [lexq] is [lex] with quote marks kept and with the unquoted tilde accepted.
+
+   What dash does (observed on the real /bin/sh, validated on every run by harness/c01.py stage R:sh_run):
+   - a word is an assignment word when it starts with an unquoted identifier followed by an unquoted = ,
+     with no quote mark inside that prefix (decided on the raw word, before expansion);
+   - prefix assignments NAME=word of a command: tilde expansion right after the = and after every unquoted
+     colon, not at the start of the word; performed left to right, each seeing the previous ones (HOME=/x
+     Y=~ cmd gives Y=/x); the argument words of the command are expanded before them (with the old HOME);
+   - export (dash treats it as an assignment builtin): an argument that is an assignment word is expanded
+     like a prefix assignment (export X=a:~/b gives a:$HOME/b), any other argument like an ordinary word
+     (tilde at the start only); all arguments are expanded before any variable is set; a name that is not
+     an identifier makes the shell exit with an error (nothing after it runs);
+   - ordinary words: tilde expansion at the start of the word only;
+   - a tilde prefix runs up to the first unquoted slash (or colon, in assignments) or the end of the word;
+     a quote mark or quoted character before that: no expansion; empty login name: the value of HOME (when
+     HOME is unset: no expansion; when empty: the empty string, and a word that thereby becomes empty and
+     has no quoted part disappears); a non-empty login name is a lookup in the user database: outside the
+     fragment ([None]);
+   - assigning a non-number to OPTIND is an error: OPTIND is outside the fragment; shell builtins as the
+     command word are not processes: outside the fragment, except export;
+   - a process started in an && list is assumed to exit with status 0 (the next command runs). *)
+From Coq Require Import String.
+
+Inductive witem := WC (c : char) (q : bool) | WQ.
+Inductive xtoken := XW (w : list witem) | XAnd.
+
+Definition erase_i (i : witem) : list qchar := match i with WC c q => [(c, q)] | WQ => [] end.
+Definition erase_w (w : list witem) : list qchar := flat_map erase_i w.
+Definition erase_t (t : xtoken) : token := match t with XW w => TW (erase_w w) | XAnd => TAnd end.
+
+Section ShX.
+Variable uw : char -> bool.
+Notation bad := (posix_bad uw).
+
+Fixpoint lexq (inq inw : bool) (cur : list witem) (s : str) : option (list xtoken) :=
+  match s with
+  | [] => if inq then None else Some (if inw then [XW cur] else [])
+  | c :: r =>
+    if inq then
+      if N.eqb c c_sq then lexq false true (cur ++ [WQ]) r
+      else lexq true true (cur ++ [WC c true]) r
+    else if N.eqb c c_sq then lexq true true (cur ++ [WQ]) r
+    else if N.eqb c c_bs then
+      match r with
+      | d :: r' => if N.eqb d c_nl then None else lexq false true (cur ++ [WC d true]) r'
+      | [] => None
+      end
+    else if is_blank c then
+      if inw then option_map (cons (XW cur)) (lexq false false [] r) else lexq false false [] r
+    else if N.eqb c c_amp then
+      match r with
+      | d :: r' =>
+        if N.eqb d c_amp then
+          let rest := option_map (cons XAnd) (lexq false false [] r') in
+          if inw then option_map (cons (XW cur)) rest else rest
+        else None
+      | [] => None
+      end
+    else if bad c && negb (N.eqb c c_tilde) then None
+    else lexq false true (cur ++ [WC c false]) r
+  end.
+
+Definition sh_lexq (s : str) : option (list xtoken) := lexq false false [] s.
+End ShX.
+
+(* ---- tilde expansion ---- *)
+Definition is_tterm (vt : bool) (c : char) : bool := N.eqb c c_slash || (vt && N.eqb c c_colon).
+
+Inductive tkind := TKHome | TKLit | TKUser.
+
+(* after at least one character of a login name *)
+Fixpoint user_scan (vt : bool) (w : list witem) : tkind :=
+  match w with
+  | [] => TKUser
+  | WC c false :: r => if is_tterm vt c then TKUser else user_scan vt r
+  | _ => TKLit
+  end.
+
+(* what the text after an unquoted tilde makes of it *)
+Definition tilde_kind (vt : bool) (w : list witem) : tkind :=
+  match w with
+  | [] => TKHome
+  | WC c false :: r => if is_tterm vt c then TKHome else user_scan vt r
+  | _ => TKLit
+  end.
+
+Definition qd (s : str) : list qchar := map (fun c => (c, true)) s.
+
+(* [vt]: assignment context (tilde after the first unquoted = and after unquoted colons; colon ends a
+   prefix); [se]: the first = has been seen; [ap]: a tilde at this position is a tilde prefix.
+   The text that replaces a tilde prefix is marked quoted: it is not looked at again. *)
+Fixpoint texp (home : option str) (vt se ap : bool) (w : list witem) : option (list qchar) :=
+  match w with
+  | [] => Some []
+  | WQ :: r => texp home vt se false r
+  | WC c q :: r =>
+    if ap && negb q && N.eqb c c_tilde then
+      match tilde_kind vt r with
+      | TKUser => None
+      | TKLit => option_map (cons (c, false)) (texp home vt se false r)
+      | TKHome =>
+        match home with
+        | Some h => option_map (app (qd h)) (texp home vt se false r)
+        | None => option_map (cons (c, false)) (texp home vt se false r)
+        end
+      end
+    else
+      let trig := negb q && vt && (N.eqb c c_colon || (N.eqb c c_eq && negb se)) in
+      let se' := se || (negb q && N.eqb c c_eq) in
+      option_map (cons (c, q)) (texp home vt se' trig r)
+  end.
+
+Definition has_unq (w : list witem) : bool :=
+  existsb (fun i => match i with WC _ false => true | _ => false end) w.
+
+(* an ordinary word; [Some None]: the word disappears *)
+Definition expand_word (home : option str) (w : list witem) : option (option str) :=
+  match texp home false false true w with
+  | None => None
+  | Some e => Some (match e with [] => if has_unq w then None else Some [] | _ => Some (word_str e) end)
+  end.
+
+(* the raw word is NAME=... : the name *)
+Fixpoint xsplit_assign (name : str) (w : list witem) : option str :=
+  match w with
+  | WC c false :: r =>
+    if N.eqb c c_eq then match name with [] => None | _ => Some name end
+    else if (match name with [] => is_name_start c | _ => is_name_char c end) then xsplit_assign (name ++ [c]) r
+    else None
+  | _ => None
+  end.
+
+(* an assignment word after expansion *)
+Definition expand_assign (home : option str) (w : list witem) : option str :=
+  option_map word_str (texp home true false false w).
+
+(* text up to / after the first = *)
+Fixpoint split_eq (s : str) : option (str * str) :=
+  match s with
+  | [] => None
+  | c :: r => if N.eqb c c_eq then Some ([], r)
+              else match split_eq r with Some (n, v) => Some (c :: n, v) | None => None end
+  end.
+
+Definition is_ident (n : str) : bool :=
+  match n with c :: r => is_name_start c && forallb is_name_char r | [] => false end.
+
+(* ---- shell variables ---- *)
+Definition shvars := list (str * (str * bool)).       (* name, value, exported *)
+
+Fixpoint sv_get (st : shvars) (n : str) : option (str * bool) :=
+  match st with
+  | [] => None
+  | (m, x) :: r => if str_eqb m n then Some x else sv_get r n
+  end.
+
+(* assignment keeps the export attribute; [ex] adds it *)
+Fixpoint sv_set (st : shvars) (n v : str) (ex : bool) : shvars :=
+  match st with
+  | [] => [(n, (v, ex))]
+  | (m, x) :: r => if str_eqb m n then (m, (v, snd x || ex)) :: r else (m, x) :: sv_set r n v ex
+  end.
+
+Definition sv_home (st : shvars) : option str := option_map fst (sv_get st (STR "HOME")).
+
+Definition sv_env (st : shvars) : list (str * str) :=
+  flat_map (fun e : str * (str * bool) => if snd (snd e) then [(fst e, fst (snd e))] else []) st.
+
+Definition sv_init (env0 : list (str * str)) : shvars :=
+  fold_left (fun (st : shvars) (nv : str * str) => sv_set st (fst nv) (snd nv) true) env0 [].
+
+Fixpoint env_get (e : list (str * str)) (n : str) : option str :=
+  match e with
+  | [] => None
+  | (m, v) :: r => if str_eqb m n then Some v else env_get r n
+  end.
+
+(* ---- commands ---- *)
+Definition sh_builtins : list str :=
+  [STR "."; STR ":"; STR "["; STR "alias"; STR "bg"; STR "break"; STR "cd"; STR "chdir"; STR "command"; STR "continue";
+   STR "echo"; STR "eval"; STR "exec"; STR "exit"; STR "export"; STR "false"; STR "fg"; STR "getopts"; STR "hash";
+   STR "jobs"; STR "kill"; STR "local"; STR "printf"; STR "pwd"; STR "read"; STR "readonly"; STR "return"; STR "set";
+   STR "shift"; STR "test"; STR "times"; STR "trap"; STR "true"; STR "type"; STR "ulimit"; STR "umask"; STR "unalias";
+   STR "unset"; STR "wait"].
+Definition is_builtin (w : str) : bool := existsb (str_eqb w) sh_builtins.
+Definition special_var (n : str) : bool := str_eqb n (STR "OPTIND").
+
+Record proc := { p_env : list (str * str); p_argv : list str }.
+
+(* leading assignment words of a simple command *)
+Fixpoint xtake_assigns (ws : list (list witem)) : list (list witem) * list (list witem) :=
+  match ws with
+  | [] => ([], [])
+  | w :: r =>
+    match xsplit_assign [] w with
+    | Some _ => let (a, rest) := xtake_assigns r in (w :: a, rest)
+    | None => ([], ws)
+    end
+  end.
+
+(* NAME=word ... applied left to right; [ex]: mark exported (the environment of one command) *)
+Fixpoint do_assigns (st : shvars) (ex : bool) (asg : list (list witem)) : option shvars :=
+  match asg with
+  | [] => Some st
+  | w :: r =>
+    match expand_assign (sv_home st) w with
+    | None => None
+    | Some s =>
+      match split_eq s with
+      | Some (n, v) => if special_var n then None else do_assigns (sv_set st n v ex) ex r
+      | None => None
+      end
+    end
+  end.
+
+(* the words of a command after the command word; disappearing words are dropped *)
+Fixpoint expand_args (home : option str) (ws : list (list witem)) : option (list str) :=
+  match ws with
+  | [] => Some []
+  | w :: r =>
+    match expand_word home w, expand_args home r with
+    | Some (Some a), Some l => Some (a :: l)
+    | Some None, Some l => Some l
+    | _, _ => None
+    end
+  end.
+
+(* the arguments of export, all expanded with the HOME in force before export runs *)
+Fixpoint expand_export_args (home : option str) (ws : list (list witem)) : option (list str) :=
+  match ws with
+  | [] => Some []
+  | w :: r =>
+    match (match xsplit_assign [] w with
+           | Some _ => option_map Some (expand_assign home w)
+           | None => expand_word home w
+           end), expand_export_args home r with
+    | Some (Some a), Some l => Some (a :: l)
+    | Some None, Some l => Some l
+    | _, _ => None
+    end
+  end.
+
+Inductive sres := RErr | ROk (st : shvars) (ps : list proc).
+
+Fixpoint do_exports (st : shvars) (args : list str) : option sres :=
+  match args with
+  | [] => Some (ROk st [])
+  | a :: r =>
+    match a with
+    | c :: _ => if N.eqb c c_dash then None else
+      match split_eq a with
+      | Some (n, v) =>
+        if is_ident n then (if special_var n then None else do_exports (sv_set st n v true) r) else Some RErr
+      | None =>
+        if is_ident a then
+          match sv_get st a with
+          | Some (v, _) => do_exports (sv_set st a v true) r
+          | None => None
+          end
+        else Some RErr
+      end
+    | [] => Some RErr
+    end
+  end.
+
+Definition run_simple (st : shvars) (ws : list (list witem)) : option sres :=
+  let (asg, rest) := xtake_assigns ws in
+  match rest with
+  | [] => match asg with
+          | [] => None                                           (* empty command: syntax error *)
+          | _ => option_map (fun st' => ROk st' []) (do_assigns st false asg)
+          end
+  | w0 :: rargs =>
+    match expand_word (sv_home st) w0 with
+    | Some (Some a0) =>
+      if str_eqb a0 (STR "export") then
+        match asg, rargs with
+        | [], _ :: _ => match expand_export_args (sv_home st) rargs with
+                        | Some args => do_exports st args
+                        | None => None
+                        end
+        | _, _ => None
+        end
+      else if is_builtin a0 then None
+      else
+        match expand_args (sv_home st) rargs, do_assigns st true asg with
+        | Some args, Some st_t => Some (ROk st [{| p_env := sv_env st_t; p_argv := a0 :: args |}])
+        | _, _ => None
+        end
+    | _ => None
+    end
+  end.
+
+Fixpoint xsplit_and (cur : list (list witem)) (ts : list xtoken) : list (list (list witem)) :=
+  match ts with
+  | [] => [cur]
+  | XW w :: r => xsplit_and (cur ++ [w]) r
+  | XAnd :: r => cur :: xsplit_and [] r
+  end.
+
+(* the processes started, in order, and whether the whole list ran *)
+Fixpoint run_list (st : shvars) (cmds : list (list (list witem))) : option (list proc * bool) :=
+  match cmds with
+  | [] => Some ([], true)
+  | c :: r =>
+    match run_simple st c with
+    | None => None
+    | Some RErr => Some ([], false)
+    | Some (ROk st' ps) =>
+      match run_list st' r with
+      | Some (l, ok) => Some (ps ++ l, ok)
+      | None => None
+      end
+    end
+  end.
+
+Definition sh_run (uw : char -> bool) (env0 : list (str * str)) (s : str) : option (list proc * bool) :=
+  match sh_lexq uw s with
+  | Some ts => run_list (sv_init env0) (xsplit_and [] ts)
+  | None => None
+  end.
